@@ -29,6 +29,8 @@ type Parked struct {
 	Info   any
 	ch     chan Decision
 	gone   bool
+	base   string // party|name|digest
+	arr    uint64 // arrival number (orders calls of one base that the driver first sees at the same quiescent point)
 }
 
 // Violation is one oracle failure.
@@ -47,7 +49,8 @@ type Sim struct {
 	Seed uint64
 
 	mu       sync.Mutex
-	parked   map[string]*Parked
+	parked   map[*Parked]struct{}
+	arrivals uint64
 	occ      map[string]int
 	obs      map[string][]string // per-party observation buffers, drained by the driver
 	logLines []string
@@ -75,7 +78,7 @@ type Sim struct {
 func newSim(t *Tape, keepLog bool) *Sim {
 	return &Sim{
 		T: t, Seed: t.Seed,
-		parked: map[string]*Parked{}, occ: map[string]int{}, obs: map[string][]string{},
+		parked: map[*Parked]struct{}{}, occ: map[string]int{}, obs: map[string][]string{},
 		h: sha256.New(), keepLog: keepLog,
 		Faults: map[string]int{}, Probes: map[string]int{}, States: map[uint64]struct{}{},
 		start: time.Now(),
@@ -124,16 +127,25 @@ func (s *Sim) Seam(ctx context.Context, party, name, digest string, info any) (D
 		}
 		return d, nil
 	}
+	if ctx != nil && ctx.Err() != nil {
+		// a call made on a context that has already ended never reaches the other side (net/http and gRPC both
+		// look before they send). It is not counted either: whether the code under test makes one more such
+		// call after a cancellation can hang on a select tie, and the occurrence numbers of the calls that do
+		// arrive must not depend on it.
+		return Decision{Kind: "ctx"}, ctx.Err()
+	}
+	// The call's canonical key (its occurrence number among the calls of the same party, name and digest) is given
+	// by the driver at the next quiescent point, not here: a call that arrives and ends on its own (context ended)
+	// before the driver ever saw it must not use up a number, or the names of later calls would depend on a race
+	// between goroutines of the code under test.
 	s.mu.Lock()
-	base := party + "|" + name + "|" + digest
-	n := s.occ[base]
-	s.occ[base] = n + 1
-	p := &Parked{Key: fmt.Sprintf("%s|%d", base, n), Party: party, Name: name, Digest: digest, Info: info, ch: make(chan Decision, 1)}
-	s.parked[p.Key] = p
+	s.arrivals++
+	p := &Parked{base: party + "|" + name + "|" + digest, arr: s.arrivals, Party: party, Name: name, Digest: digest, Info: info, ch: make(chan Decision, 1)}
+	s.parked[p] = struct{}{}
 	s.mu.Unlock()
 	if s.passthrough.Load() { // raced with shutdown
 		s.mu.Lock()
-		delete(s.parked, p.Key)
+		delete(s.parked, p)
 		s.mu.Unlock()
 		return Decision{Kind: "shutdown"}, nil
 	}
@@ -146,8 +158,8 @@ func (s *Sim) Seam(ctx context.Context, party, name, digest string, info any) (D
 		return d, nil
 	case <-done:
 		s.mu.Lock()
-		if _, ok := s.parked[p.Key]; ok {
-			delete(s.parked, p.Key)
+		if _, ok := s.parked[p]; ok {
+			delete(s.parked, p)
 			p.gone = true
 			s.mu.Unlock()
 			return Decision{Kind: "ctx"}, ctx.Err()
@@ -163,8 +175,25 @@ func (s *Sim) ParkedCalls() []*Parked {
 	s.mu.Lock()
 	defer s.mu.Unlock()
 	out := make([]*Parked, 0, len(s.parked))
-	for _, p := range s.parked {
+	var fresh []*Parked
+	for p := range s.parked {
 		out = append(out, p)
+		if p.Key == "" {
+			fresh = append(fresh, p)
+		}
+	}
+	// number the calls the driver sees for the first time (same base: in order of arrival - such calls are
+	// indistinguishable by content)
+	sort.Slice(fresh, func(i, j int) bool {
+		if fresh[i].base != fresh[j].base {
+			return fresh[i].base < fresh[j].base
+		}
+		return fresh[i].arr < fresh[j].arr
+	})
+	for _, p := range fresh {
+		n := s.occ[p.base]
+		s.occ[p.base] = n + 1
+		p.Key = fmt.Sprintf("%s|%d", p.base, n)
 	}
 	sort.Slice(out, func(i, j int) bool { return out[i].Key < out[j].Key })
 	return out
@@ -173,11 +202,11 @@ func (s *Sim) ParkedCalls() []*Parked {
 // Release answers one parked call. Driver only.
 func (s *Sim) Release(p *Parked, d Decision) {
 	s.mu.Lock()
-	if _, ok := s.parked[p.Key]; !ok {
+	if _, ok := s.parked[p]; !ok {
 		s.mu.Unlock()
 		return
 	}
-	delete(s.parked, p.Key)
+	delete(s.parked, p)
 	s.mu.Unlock()
 	p.ch <- d
 }
